@@ -178,7 +178,8 @@ import sys, json, itertools
 sys.path.insert(0, %r); sys.path.insert(0, %r)
 import numpy, awkward as ak, vector
 vector.register_awkward()
-READ = ["x", "y", "rho", "phi", "z", "theta", "eta", "t", "tau", "px", "py", "pt", "pz", "E", "e", "energy", "M", "m", "mass", "mag", "p", "Et", "Mt", "tau2", "mass2", "t2", "energy2"]
+MODE = %r
+READ = [] if MODE == "ops" else ["x", "y", "rho", "phi", "z", "theta", "eta", "t", "tau", "px", "py", "pt", "pz", "E", "e", "energy", "M", "m", "mass", "mag", "p", "Et", "Mt", "tau2", "mass2", "t2", "energy2"]
 SYN = {"x": ["px"], "y": ["py"], "rho": ["pt"], "z": ["pz"], "t": ["E", "e", "energy"], "tau": ["M", "m", "mass"]}
 vals = {"x": [3.0, -1.5, 0.25], "y": [4.0, 2.0, -0.5], "rho": [5.0, 2.5, 0.75], "phi": [0.3, -2.0, 1.1], "z": [1.0, -2.0, 0.5], "theta": [0.4, 2.0, 1.3],
         "eta": [0.5, -1.2, 2.0], "t": [20.0, 11.0, 7.5], "tau": [4.0, 0.25, 1.5]}
@@ -208,20 +209,54 @@ for az in (("x", "y"), ("rho", "phi")):
                             continue
                         if got != want or gotj != want or float(gotr) != float(want[1]):
                             bad.append(f"{syn}: Momentum{dim}D array with raw fields {names}: .{rd} = {got} (record: {float(gotr)}), with geometric fields {geo} it is {want}")
+                    # two-step: a single-vector operation on the raw-spelled array, then read the RESULT (it may carry stale raw-spelled fields
+                    # next to the fresh coordinates - the known Awkward finding - but every reader must still give the fresh value)
+                    OPS = [("v * 3", lambda v: v * 3), ("3 * v", lambda v: 3 * v), ("-v", lambda v: -v), ("v / 4", lambda v: v / 4), ("v.scale(-1.5)", lambda v: v.scale(-1.5)),
+                           ("v.unit()", lambda v: v.unit()), ("v.rotateZ(0.3)", lambda v: v.rotateZ(0.3)), ("v + v", lambda v: v + v), ("v.to_xy()", lambda v: v.to_xy()),
+                           ("v.to_rhophi()", lambda v: v.to_rhophi())]
+                    if dim >= 3:
+                        OPS += [("v.rotateX(0.2)", lambda v: v.rotateX(0.2)), ("v.to_rhophiz()", lambda v: v.to_rhophiz()), ("v.to_xyeta()", lambda v: v.to_xyeta())]
+                    if dim == 4:
+                        OPS += [("v.boostX(0.3)", lambda v: v.boostX(0.3)), ("v.to_xyzt()", lambda v: v.to_xyzt()), ("v.to_rhophietatau()", lambda v: v.to_rhophietatau()),
+                                ("v.to_beta3()", lambda v: v.to_beta3())]
+                    if MODE == "ops":
+                        OPS = [o for o in OPS if not o[0].startswith(("v.to_", "v.rotate", "v.boost"))]
+                    elif syn not in ("px", "py", "pt", "pz", "E", "mass", "m"):
+                        OPS = OPS[:3]
+                    for oname, op in OPS:
+                        try:
+                            rr, ra = op(ref), op(arr)
+                        except Exception as e:
+                            bad.append(f"{syn}: {oname} on Momentum{dim}D with raw fields {names} raises {type(e).__name__}: {str(e)[:60]}")
+                            continue
+                        dr = 2 if isinstance(rr, vector.Vector2D) else 3 if isinstance(rr, vector.Vector3D) else 4
+                        da = 2 if isinstance(ra, vector.Vector2D) else 3 if isinstance(ra, vector.Vector3D) else 4 if isinstance(ra, vector.Vector4D) else 0
+                        if da != dr:
+                            continue          # dimension decided from literal field names: the known finding awkward-raw-momentum-fields (C18)
+                        for rd in ["x", "y", "phi", "pt"] + (["z", "mag"] if dr >= 3 else []) + (["t", "mass"] if dr == 4 else []):
+                            n += 1
+                            try:
+                                want = ak.to_list(getattr(rr, rd))
+                                got = ak.to_list(getattr(ra, rd))
+                            except Exception as e:
+                                bad.append(f"{syn}: ({oname}).{rd} on Momentum{dim}D with raw fields {names} raises {type(e).__name__}: {str(e)[:60]}")
+                                continue
+                            if any(abs(a_ - b_) > 1e-12 * max(1.0, abs(b_)) for a_, b_ in zip(got, want)):
+                                bad.append(f"{syn}: ({oname}).{rd} on a Momentum{dim}D array with raw fields {names} = {got}; with geometric fields {geo} it is {want}")
 print("JSON" + json.dumps([bad, n]))
 """
 RAW_REPLAY = ("import sys; sys.path.insert(0, %r); sys.path.insert(0, %r)\nfrom harness import c14\nbad, n = c14.raw_awkward_spellings()\nassert not bad, bad[0]\n"
               % (C.VERIF, C.VERIF + "/tools"))
 
 
-def raw_awkward_spellings():
+def raw_awkward_spellings(mode="all"):
     """Awkward momentum arrays whose RECORDS carry the momentum spelling as the field name (ak.zip(..., with_name='Momentum4D') under
     registered behaviors - vector.zip would rename the field): every reader gives what the geometric spelling gives, on flat and jagged
     arrays and on a selected record, for every spelling of every coordinate (px py pt pz E e energy M m mass)"""
     import json
     import subprocess
     import sys
-    p = subprocess.run([sys.executable, "-c", RAW_SPELL_CODE % (C.VERIF, C.VERIF + "/tools")], capture_output=True, text=True, timeout=900)
+    p = subprocess.run([sys.executable, "-c", RAW_SPELL_CODE % (C.VERIF, C.VERIF + "/tools", mode)], capture_output=True, text=True, timeout=900)
     line = [l for l in p.stdout.splitlines() if l.startswith("JSON")]
     if not line:
         raise RuntimeError("raw awkward spelling probe failed: " + p.stderr[-400:])
